@@ -233,7 +233,7 @@ func buildPool(g simkit.G) *pool {
 	}
 	if g.Chance(1, 16) {
 		// beyond plausible "go parallel / switch algorithm" thresholds: 2^14, 2^15, 2^16
-		n := []int{16400, 16400, 33000, 33000, 66000}[g.Intn(5)] + g.Intn(4000)
+		n := []int{16400, 16400, 33000, 33000, 66000, 66000, 132000, 263000}[g.Intn(8)] + g.Intn(4000)
 		p.huge = mkF(n)
 		for i := range p.huge {
 			p.huge[i] = 1e3*g.Unit() - 300 + 1e-7*float64(i%97)
